@@ -213,6 +213,21 @@ theorem failure_rearms {σ : State} (h : Reachable σ) {c : Active} (hc : σ.cur
   have := (inv_of_reachable h).served s hs
   simpa [Served, hc, hp] using this
 
+/-- non-vacuity for the combination "rebuild triggered by the freshness callback (flag down) ×
+    request from inside the creator × creator fails": the flag is forced up (not restored to its
+    value before the rebuild), and the next acquire calls the creator again (generation 3) -/
+example : ∃ σ, Reachable σ ∧ σ.failed = 1 ∧ σ.cbObs = 1 ∧ σ.flagObs = 1 ∧
+    ∃ r ∈ σ.reqLog, ∃ a ∈ σ.acqLog, r.retAt < a.lockedAt ∧ a.tid = 2 ∧ a.env.gen = 3 :=
+  ⟨run (init [.acqIdle {}, .acqIdle { cb := true, fails := true, script := [.req] }, .acqIdle {}])
+      [0, 0, 0, 0, 0, 0, 0, 0, 1, 1, 1, 1, 1, 1, 1, 1, 1, 1, 2, 2, 2, 2, 2, 2, 2, 2],
+   reachable_run (.init _ (by decide)) _, by decide⟩
+
+example : ∃ σ, Reachable σ ∧ ∃ c, σ.cur = some c ∧ c.pc = .remarked ∧ c.sawFlag = false ∧
+    σ.sets ≠ [] ∧ σ.flag = true :=
+  ⟨run (init [.acqIdle {}, .acqIdle { cb := true, fails := true, script := [.req] }, .acqIdle {}])
+      [0, 0, 0, 0, 0, 0, 0, 0, 1, 1, 1, 1, 1, 1, 1, 1, 1],
+   reachable_run (.init _ (by decide)) _, by decide⟩
+
 theorem C20_holds : C20_full := by
   intro σ h
   refine ⟨fun r hr a ha hlt => (no_lost_request h r hr a ha hlt).1, request_before_check h, ?_,
